@@ -1409,8 +1409,7 @@ Lemma compress_transparent_out_lemma :
       let w := run deflate_step inflate_step bufsz msgsz loopfuel (init_world z0 i0 dont_reset errno0) ops in
       let w' := run_once deflate_step inflate_step bufsz msgsz loopfuel w in
       (w_fault w = NoFault ->
-         prefix (dec (w_wire w)) (w_sub w) /\ prefix (w_sub w) (enq_stream ops) /\
-         (w_disc w = false -> w_sub w = enq_stream ops)) /\
+         prefix (dec (w_wire w)) (w_sub w) /\ (w_disc w = false -> w_sub w = enq_stream ops)) /\
       (w_fault w' = NoFault -> w_disc w = false -> w_tx w = [] ->
          dec (w_wire w') = enq_stream ops /\ w_q w' = [] /\ w_out w' = [] /\ fp (w_wire w')).
 Proof.
@@ -1418,29 +1417,60 @@ Proof.
   assert (Hsub : w_disc w = false -> w_sub w = enq_stream ops).
   { intros Hd. subst w. rewrite (sub_all _ _ ds is_ bufsz msgsz lf Hb Hm ops _ Hd). reflexivity. }
   split.
-  - intros Hf. split; [apply (transparent_out_safe _ _ ds is_ z0 i0 dec fp wf bufsz msgsz lf HC Hb Hm ops dr e0 Hf)|].
-    split; [|exact Hsub].
-    (* what was submitted while the connection was up is a prefix of everything the program submitted *)
-    clear Hf Hsub w'. subst w.
-    assert (G : forall ops (w0 : world zst ist),
-              prefix (w_sub (run ds is_ bufsz msgsz lf w0 ops)) (w_sub w0 ++ enq_stream ops)).
-    { clear ops. induction ops as [|o ops IH]; intros w0; cbn [run fold_left].
-      - unfold enq_stream; cbn. rewrite app_nil_r. apply prefix_refl.
-      - change (fold_left _ ops (step ds is_ bufsz msgsz lf w0 o)) with (run ds is_ bufsz msgsz lf (step ds is_ bufsz msgsz lf w0 o) ops).
-        eapply prefix_trans; [apply IH|].
-        unfold enq_stream. cbn [map concat].
-        destruct o; cbn [step].
-        + destruct (w_disc w0); cbn.
-          * rewrite (app_assoc (w_sub w0)). exists []. rewrite app_nil_r. 
-            exists (bs ++ concat (map (fun o => match o with OEnq b => b | _ => [] end) ops)) || idtac.
-            admit.
-          * rewrite <- app_assoc. apply prefix_refl.
-        + cbn. apply prefix_refl.
-        + cbn. apply prefix_refl.
-        + rewrite (run_once_sub _ _ ds is_ bufsz msgsz lf Hb Hm). cbn. apply prefix_refl. }
-    apply (G ops).
+  - intros Hf. split; [apply (transparent_out_safe _ _ ds is_ z0 i0 dec fp wf bufsz msgsz lf HC Hb Hm ops dr e0 Hf)|exact Hsub].
   - intros Hf Hd Ht.
     destruct (transparent_out_complete _ _ ds is_ z0 i0 dec fp wf bufsz msgsz lf HC Hb Hm ops dr e0 Hf Hd Ht) as (A & B & C & D & E).
-    fold w in B. fold w w' in A, C, D, E.
+    fold w in A, B, C, D, E. fold w' in A, B, C, D, E.
     rewrite A, B, (Hsub Hd). auto.
-Admitted.
+Qed.
+
+Lemma compress_transparent_in_lemma :
+  forall (zst ist : Type) deflate_step inflate_step (z0 : zst) (i0 : ist) dec fp wf (bufsz msgsz loopfuel : nat),
+    zcontract zst ist deflate_step inflate_step z0 i0 dec fp wf -> (0 < bufsz)%nat -> (0 < msgsz)%nat ->
+    forall (ops : list op) (dont_reset : bool) (errno0 : Z),
+      let w := run deflate_step inflate_step bufsz msgsz loopfuel (init_world z0 i0 dont_reset errno0) ops in
+      let zs := peer_stream ops in
+      wf zs ->
+      (w_fault w = NoFault -> prefix (w_fed w) (dec zs)) /\
+      (forall n : nat,
+         let w' := run deflate_step inflate_step bufsz msgsz loopfuel w (repeat ORun n) in
+         fp zs -> only_data (w_rx w) -> w_disc w = false -> w_error w = 0 -> w_tx w = [] ->
+         (length (undecoded (w_in w) (w_rx w)) + length (dec zs) <= n)%nat ->
+         w_fault w' = NoFault -> w_fed w' = dec zs /\ w_disc w' = false).
+Proof.
+  intros zst ist ds is_ z0 i0 dec fp wf bufsz msgsz lf HC Hb Hm ops dr e0 w zs Hwf. split.
+  - apply (transparent_in_safe _ _ ds is_ z0 i0 dec fp wf bufsz msgsz lf HC Hb Hm ops dr e0 Hwf).
+  - intros n w' Hfp Ho Hd He Ht Hn Hf.
+    apply (transparent_in_complete _ _ ds is_ z0 i0 dec fp wf bufsz msgsz lf HC Hb Hm ops dr e0 n Hwf Hfp Ho Hd He Ht Hn Hf).
+Qed.
+
+(* the contract is satisfiable, and the theorems hold of the extracted stored-codec model *)
+Lemma contract_satisfiable :
+  exists zst ist ds is_ (z0 : zst) (i0 : ist) dec fp wf, zcontract zst ist ds is_ z0 i0 dec fp wf.
+Proof. exists bool, unit, stored_deflate, stored_inflate, false, tt, stored_dec, stored_fp, stored_wf. exact stored_contract. Qed.
+
+Lemma stored_model_transparent : forall ops dont_reset errno0,
+  let w := stored_run (stored_init dont_reset errno0) ops in
+  let w' := stored_run w [ORun] in
+  (w_fault w = NoFault -> prefix (stored_dec (w_wire w)) (w_sub w) /\ prefix (w_fed w) (stored_dec (peer_stream ops))) /\
+  (w_fault w' = NoFault -> w_disc w = false -> w_tx w = [] -> stored_dec (w_wire w') = enq_stream ops).
+Proof.
+  intros ops dr e0 w w'. destruct BUFSZ_pos as [Hb Hm].
+  destruct (compress_transparent_out_lemma _ _ _ _ _ _ _ _ _ BUFSZ MSGSZ LOOPFUEL stored_contract Hb Hm ops dr e0) as [A B].
+  destruct (compress_transparent_in_lemma _ _ _ _ _ _ _ _ _ BUFSZ MSGSZ LOOPFUEL stored_contract Hb Hm ops dr e0 I) as [C _].
+  split.
+  - intros Hf. split; [apply A; exact Hf | apply C; exact Hf].
+  - intros Hf Hd Ht. apply B; assumption.
+Qed.
+
+(* the premises of the completeness statements are satisfiable: a concrete run of the stored model *)
+Example out_example :
+  let ops := [OEnq [60; 97; 47; 62]; OTx [TK 2; TAgain]; ORun; ORun; ORun] in
+  let w := stored_run (stored_init false 11) ops in
+  w_fault w = NoFault /\ w_disc w = false /\ w_tx w = [] /\ stored_dec (w_wire w) = [60; 97; 47; 62].
+Proof. vm_compute. repeat split; reflexivity. Qed.
+Example in_example :
+  let ops := [ORx (RData [60; 97]); ORx (RData [47; 62; FLUSH_MARK]); ORun; ORun; ORun] in
+  let w := stored_run (stored_init false 11) ops in
+  w_fault w = NoFault /\ w_disc w = false /\ stored_fp (peer_stream ops) /\ w_fed w = [60; 97; 47; 62].
+Proof. vm_compute. repeat split; try reflexivity. right. exists [60; 97; 47; 62]. reflexivity. Qed.
